@@ -83,6 +83,28 @@ func (P) Facts() []core.Fact {
 			core.Fact{Name: k + "_hrpKnown", Value: chaincfg.IsBech32SegwitPrefix(n.p.Bech32HRPSegwit + "1")},
 		)
 	}
+	// prefix registries: which version bytes are known as P2PKH / P2SH ids, and the private -> public HD id map
+	var pkhIDs, shIDs []int64
+	for id := 0; id < 256; id++ {
+		if chaincfg.IsPubKeyHashAddrID(byte(id)) {
+			pkhIDs = append(pkhIDs, int64(id))
+		}
+		if chaincfg.IsScriptHashAddrID(byte(id)) {
+			shIDs = append(shIDs, int64(id))
+		}
+	}
+	fs = append(fs, core.Fact{Name: "pkhIDs", Value: pkhIDs}, core.Fact{Name: "shIDs", Value: shIDs})
+	for i, n := range nets() {
+		pub, err := chaincfg.HDPrivateKeyToPublicKeyID(n.p.HDPrivateKeyID[:])
+		if err != nil {
+			pub = nil
+		}
+		fs = append(fs, core.Fact{Name: "net" + strconv.Itoa(i) + "_hdPrivToPub", Value: bytesI64(pub)})
+	}
+	_, errUnknown := chaincfg.HDPrivateKeyToPublicKeyID([]byte{1, 2, 3, 4})
+	_, errLen := chaincfg.HDPrivateKeyToPublicKeyID([]byte{1, 2, 3})
+	fs = append(fs, core.Fact{Name: "hdUnknownRejected", Value: errUnknown == chaincfg.ErrUnknownHDKeyID && errLen == chaincfg.ErrUnknownHDKeyID},
+		core.Fact{Name: "hdRegisterBadLen", Value: chaincfg.RegisterHDKeyID([]byte{1, 2, 3}, []byte{1, 2, 3, 4}) == chaincfg.ErrInvalidHDKeyID})
 	fs = append(fs,
 		core.Fact{Name: "bech32Const", Value: int64(bech32.Version0Const)},
 		core.Fact{Name: "bech32mConst", Value: int64(bech32.VersionMConst)},
